@@ -51,7 +51,7 @@ sslKeys_t *load_keys(const KeySpec &ks, int *rc_out) {
     if (ks.tls13_psk) {
         const unsigned char *pid, *pkey; int pidLen, pkeyLen;
         vsim_tls13_psk(&pkey, &pkeyLen, &pid, &pidLen);
-        rc = vsim_load_tls13_psk((struct sslKeys *) keys, pkey, pkeyLen, pid, pidLen, 16384, 0);
+        rc = vsim_load_tls13_psk((struct sslKeys *) keys, pkey, pkeyLen, pid, pidLen, 16384, ks.tls13_psk_cipher);
         if (rc < 0) { if (rc_out) { *rc_out = rc; } matrixSslDeleteKeys(keys); return nullptr; }
     }
     if (ks.ticket_keys) {
